@@ -35,6 +35,7 @@ func init() {
 		"strings.LastIndex":  iLastIndex,
 		"strings.TrimLeft":   iTrimLeft,
 		"strconv.ParseBool":  iParseBool,
+		"strconv.ParseInt":   iParseInt,
 
 		"strconv.Atoi":       iAtoi,
 		"strconv.ParseFloat": iParseFloat,
@@ -233,6 +234,56 @@ func iTrimLeft(m *machine, fr *frame, args []value) value {
 			panic(cut{"strings.TrimLeft removes more than 4 characters (outside bound)"})
 		}
 	}
+}
+
+// ParseInt: base 10 like Atoi (with the bit size's range); base 0 for the
+// prefixed and leading-zero forms yields an uninterpreted value (a native
+// replay decides what it really is); underscores are outside the bound.
+var (
+	piPlainDec = newDual(`[+-]?(?:0|[1-9][0-9]*)`)
+	piPrefixed = newDual(`[+-]?(?:0[0-7]+|0[xX][0-9a-fA-F]+|0[bB][01]+|0[oO][0-7]+)`)
+	piUnder    = newDual(`[^_]*`)
+)
+
+func iParseInt(m *machine, fr *frame, args []value) value {
+	s, sc := strArg(args[0])
+	base, ok1 := args[1].(int64)
+	bits, ok2 := args[2].(int64)
+	if !ok1 || !ok2 {
+		panic(cut{"strconv.ParseInt with symbolic base or bit size"})
+	}
+	if sc {
+		v, err := strconv.ParseInt(s.S, int(base), int(bits))
+		if err != nil {
+			ne, _ := err.(*strconv.NumError)
+			return tuple{v, m.numError("ParseInt", s.S, ne != nil && ne.Err == strconv.ErrRange)}
+		}
+		return tuple{v, iface{}}
+	}
+	if bits != 0 && bits != 64 {
+		panic(cut{"strconv.ParseInt with a bit size other than 0 or 64 on a symbolic string"})
+	}
+	switch base {
+	case 10:
+		return m.atoi(s)
+	case 0:
+		if !m.branch(mkInRe(s, piUnder.smt)) {
+			panic(cut{"strconv.ParseInt base 0 with underscores (outside bound)"})
+		}
+		if m.branch(mkInRe(s, piPlainDec.smt)) {
+			return m.atoi(s)
+		}
+		if m.branch(mkInRe(s, piPrefixed.smt)) {
+			if m.branch(mkCmp("<=", mkLen(s), mkInt(12))) {
+				v := rawApp("pi0_val", SInt, s)
+				v.rng, v.lo, v.hi = true, -1<<63, 1<<63-1
+				return tuple{v, iface{}}
+			}
+			panic(cut{"strconv.ParseInt base 0 with a prefixed numeral of more than 12 characters (outside bound)"})
+		}
+		return tuple{int64(0), m.numError("ParseInt", fromTerm(s), false)}
+	}
+	panic(cut{fmt.Sprintf("strconv.ParseInt with base %d on a symbolic string", base)})
 }
 
 func iParseBool(m *machine, fr *frame, args []value) value {
